@@ -161,14 +161,18 @@ def run(rep, tier):
     sites, reach = inv.run([root])
     rep.analysed(*sorted(reach))
     R = re.escape(root)
+    from common import loop_reach
+    in_loop = loop_reach(F, lm.block)       # what runs per instruction; the rest of the reachable set runs before / after the loop
     rows = [
-        Row("len-multiple", R, r"^panic!(panic|assert)@$", "D4", "precondition: the input consists of whole instructions "
-            "(that this is the only panic outside the per-instruction loop, taken exactly when 8 does not divide the length, is R15.e)", cites=("R15.e",)),
+        Row("len-multiple", r"^disassembler::", r"^panic!(panic|assert)@$", "D4", "precondition: the input consists of whole instructions "
+            "(that this is the only panic outside the per-instruction loop, taken exactly when 8 does not divide the length, is R15.e)", cites=("R15.e",),
+            pred=lambda site: site.fn == root or (site.fn in reach and site.fn not in in_loop)),
         Row("scan-ends-at-end", R, r"^panic!debug_assert(_eq)?@\[.*Mul\(mut<usize>,8\).*(<>|==|<=).*\[T\]::len\(&\*arg1<&\[u8\]>\).*\]$", "D4",
             "precondition: whole instructions and wide loads followed by their second half - the scan advances by one slot "
             "(two for a wide load) from 0 and so ends exactly at the end of the input"),
         Row("unknown-opcode", R, r"^panic!panic@u8!in\[\d+ values\]$", "D4", "precondition: supported opcodes only"),
-        Row("call-kind", R, r"^panic!panic@u8=133;u8!in\[0,1\]$", "D4", "precondition: call kinds 0/1 only"),
+        Row("call-kind", R, r"^panic!panic@u8=133(;.*)?$", "D4", "precondition: call kinds 0/1 only (that the arm of the call opcode panics for no "
+            "instruction whose source field is 0 or 1, however the kind is told apart, is R15.a)", cites=("R15.a",)),
         Row("fetch", R, r"^precond:ebpf::get_insn<-", "D4",
             "precondition: whole instructions (8 | len, with the loop guard pc*8 < len) and wide loads followed by their second half"),
     ]
